@@ -65,6 +65,7 @@ def run_case(darsia, rng, tid, cfg, nextra, rgb, dtype, shape, probe_is_base):
         probes += [("refilter", arr()), ("refilter", base_a.copy())]
     evs = []
     ca = None
+    companions = []
     omit = (rng.random() < 0.5, rng.random() < 0.5)
     for j, probe_a in enumerate(probes):
         if isinstance(probe_a, tuple) and probe_a[0] == "refilter":
@@ -89,6 +90,21 @@ def run_case(darsia, rng, tid, cfg, nextra, rgb, dtype, shape, probe_is_base):
                     break
                 base_a = newbase_a
             probe_a = probe_a[1]
+        if j == 1 and ca is not None:
+            # a second analysis of the same configuration and image shape, with its own baseline and its own series of extra
+            # baselines, is set up and used in between: the first one goes on cleaning with ITS filter
+            try:
+                with warnings.catch_warnings():
+                    warnings.simplefilter("ignore")
+                    other = darsia.ConcentrationAnalysis(
+                        base=[image(arr())] + [image(arr()) for _ in range(max(1, nextra))],
+                        signal_reduction=red if cfg["red"] else None, balancing=bal if cfg["bal"] else None,
+                        restoration=res if cfg["res"] else None, model=mod if cfg["mod"] else None,
+                        **{"diff option": cfg["diff"], "restoration -> model": bool(cfg["order"])})
+                    other(image(arr()))
+                    companions.append(other)
+            except Exception:  # noqa  (the companion is not the subject)
+                pass
         e = {"tid": f"{tid}:{j}", "op": "run", "cfg": cfg, "rgb": int(rgb), "dtype": dtype, "raised": 0, "nextra": nextra, "call": j}
         evs.append(e)
         del calls[:]
